@@ -235,6 +235,9 @@ def gen_insitu(rng):
     rk = int(rng.integers(1, 3))
     tree["p%d" % j] = [int(rng.choice(dims)) for _ in range(rk)]
   r = int(rng.choice([1, 2])) * int(rng.choice([1, -1]))
+  if max(max(s) for s in tree.values()) <= abs(r) + 2:
+    # the optimizer rejects a tree in which no statistic is large enough to be compressed
+    tree["p0"][0] = 8
   return {"fn": "insitu", "tree": tree, "r": r, "eps": float(rng.choice([1e-3, 1e-4])), "beta2": float(rng.choice([0.9, 1.0])),
           "T": 4, "hseed": int(rng.integers(0, 2 ** 31))}
 
@@ -348,6 +351,8 @@ def run(spec, rec):
     return
   rng = util.rng_for(spec["seed"], PROPERTY, spec["name"])
   for i in range(spec["n"]):
+    if i % 8 == 7:
+      util.release_compiled_code()
     if time.time() > rec.deadline:
       rec.count("dropped_for_budget", spec["n"] - i)
       break
